@@ -1,10 +1,45 @@
 /-
-Property C09 — serialisation round trip. Theorems about `Daac.serialize` / `Daac.deserialize`
-(Model/Serial.lean), which suite K-serial ties to the implementation byte for byte.
+Property C09 — serialisation round trip restores an equal, equally behaving automaton.
+
+Model: `Daac.serialize` / `Daac.deserialize` (Model/Serial.lean), tied to the implementation byte
+for byte by suite K-serial (image equality, restored tables, remainder) on every run; the width
+table and the match-kind tables are generated from the current source (Gen/Consts.lean).
+Proofs: Daac/Proofs/SerialRT.lean.
 -/
-import Daac.Model.Serial
+import Daac.Proofs.SerialRT
 namespace Daac.Props.C09
 open Daac
+variable {V : Type}
+
+/-- **Round trip, full strength in the model**: for *every* well-formed automaton value (not only
+built ones), both variants, all three kinds, every lawful fixed-width value type, and arbitrary
+trailing bytes: deserialising the image yields an automaton *equal* to the original, consumes
+exactly the image and hands back the trailing bytes untouched. -/
+theorem roundtrip (S : Ser V) (D : V → Prop) (hS : S.LawfulOn D) (da : DA V) (h : da.WF S D)
+    (rest : List Nat) : deserialize S da.variant (serialize S da ++ rest) = some (da, rest) :=
+  deserialize_serialize S D hS da h rest
+
+/-- Serialising the restored automaton reproduces the same bytes. -/
+theorem reserialize (S : Ser V) (D : V → Prop) (hS : S.LawfulOn D) (da : DA V) (h : da.WF S D)
+    (rest : List Nat) (da' : DA V) (rest' : List Nat)
+    (hd : deserialize S da.variant (serialize S da ++ rest) = some (da', rest')) :
+    serialize S da' = serialize S da ∧ rest' = rest :=
+  Daac.reserialize S D hS da h rest da' rest' hd
+
+/-- The restored automaton answers every search identically: it *is* the same value, so any
+function of it (every search method of the model) gives the same result. -/
+theorem search_after_roundtrip {α : Type} (S : Ser V) (D : V → Prop) (hS : S.LawfulOn D) (da : DA V)
+    (h : da.WF S D) (rest : List Nat) (search : DA V → α) :
+    ∃ da', deserialize S da.variant (serialize S da ++ rest) = some (da', rest) ∧ search da' = search da :=
+  ⟨da, deserialize_serialize S D hS da h rest, rfl⟩
+
+/-- The built-in value types are lawful on their ranges (unsigned / signed of any width, `Empty`). -/
+theorem unsigned_lawful (w : Nat) : (serUnsigned w).LawfulOn (fun v => 0 ≤ v ∧ v < 256 ^ w) :=
+  serUnsigned_lawfulOn w
+theorem signed_lawful (w : Nat) (hw : 1 ≤ w) :
+    (serSigned w).LawfulOn (fun v => -(2 ^ (8 * w - 1)) ≤ v ∧ v < 2 ^ (8 * w - 1)) :=
+  serSigned_lawfulOn w hw
+theorem empty_lawful : serEmpty.LawfulOn (fun v => v = 0) := serEmpty_lawfulOn
 
 /-- The match kind survives its one-byte encoding, for each of the three kinds. The decoding
 table is generated from the current source (`From<u8> for MatchKind`), so this is re-proved
@@ -27,5 +62,15 @@ theorem kind_default (b : Nat) (h : b ∉ Gen.kindFromU8.map (·.1)) :
   rw [this]
 
 theorem kind_default_is_standard : kindByteOf Gen.kindFromU8Default = 0 := by decide
+
+/-- The widths of the built-in integer types as the source defines them (generated table):
+a wrong width in `define_serializable_primitive!` breaks this obligation. -/
+theorem prim_widths :
+    Gen.primWidths.map (fun x => (x.1, x.2.1)) =
+      [("u8", 1), ("u16", 2), ("u32", 4), ("u64", 8), ("u128", 16), ("usize", 8),
+       ("i8", 1), ("i16", 2), ("i32", 4), ("i64", 8), ("i128", 16), ("isize", 8)] := by decide
+
+/-- Non-vacuity: a concrete non-trivial char-wise automaton satisfies the hypotheses. -/
+example : exampleDA.WF (serUnsigned 4) (fun v => 0 ≤ v ∧ v < 256 ^ 4) := exampleDA_wf
 
 end Daac.Props.C09
